@@ -302,6 +302,15 @@ Definition fair_ref_ok (m : shares) (ref : list (Z * Z * Z * Z * Z)) : bool :=
   forallb (fun '(w, pid, d, num, den) =>
     match Qcompare (sh_fair (sh_get m (w, pid, d))) (Qmake num (Z.to_pos den)) with Eq => true | _ => false end) ref.
 
+(** the property itself against the harness' INDEPENDENT reference: the farmer's payouts (read from the responses)
+    are within the same bound of the block-by-block stake-weighted share that the harness computes from the stakes it
+    observed at the start of every block.  (On an implementation that settles before every change of stake the
+    reference equals the share accrued at settlement time, so this clause and clause 18 agree.) *)
+Definition fair_ref_share_ok (m : shares) (ref : list (Z * Z * Z * Z * Z)) : bool :=
+  forallb (fun '(w, pid, d, num, den) =>
+    let s := sh_get m (w, pid, d) in
+    share_ok (mkShare (Qmake num (Z.to_pos den)) (sh_eps s) (sh_paid s) (sh_n s))) ref.
+
 (** ** the check loop *)
 Definition obs0 (c : case) : obs := mkObs 0 [] [] [] (c_bals c).
 
@@ -343,4 +352,5 @@ Definition check_case_C06 (c : case) : Z * Z * Z :=
   let corr := if (a_corr x <? 0) && negb (fair_ref_ok (a_sh x) (c_fair c)) then n_steps c else a_corr x in
   if 0 <=? a_p6 x then (corr, a_p6 x, a_c6 x)
   else if negb (fair_ok m) then (corr, n_steps c, 18)
+  else if negb (fair_ref_share_ok m (c_fair c)) then (corr, n_steps c, 19)
   else (corr, -1, 0).
